@@ -308,6 +308,7 @@ class Callout:
         if locb:
             locb += b"\0" * ((-len(locb)) % 4 if self.locpad is None else self.locpad)
         body = locb
+        parts = {}
         if self.fru is not None:
             f = self.fru
             fb = b""
@@ -317,16 +318,19 @@ class Callout:
                 fb += padded(f["ccin"], 4)
             if f["flags"] & FRU_SN:
                 fb += padded(f["sn"], 12)
-            body += b"ID" + u8(4 + len(fb)) + u8(f["flags"]) + fb
+            parts["fru"] = b"ID" + u8(4 + len(fb)) + u8(f["flags"]) + fb
         if self.pce is not None:
             p = self.pce
             nb = p["name"].encode("ascii")
             nb += b"\0" * (p.get("namepad", (-len(nb)) % 4))
-            body += b"PE" + u8(24 + len(nb)) + u8(p.get("flags", 0)) + padded(p["mt"], 8) + padded(p["sn"], 12) + nb
+            parts["pce"] = b"PE" + u8(24 + len(nb)) + u8(p.get("flags", 0)) + padded(p["mt"], 8) + padded(p["sn"], 12) + nb
         if self.mru is not None:
             ids = self.mru["ids"]
-            body += b"MR" + u8(8 + 8 * len(ids)) + u8((self.mru.get("hiflags", 0) & 0xF0) | len(ids)) + \
+            parts["mru"] = b"MR" + u8(8 + 8 * len(ids)) + u8((self.mru.get("hiflags", 0) & 0xF0) | len(ids)) + \
                 u32(self.mru.get("res", 0)) + b"".join(u32(pr) + u32(i) for pr, i in ids)
+        # the substructures are self-describing (2-character type, length): they are found in whatever order they come
+        for k in getattr(self, "order", None) or ("fru", "pce", "mru"):
+            body += parts.get(k, b"")
         size = 4 + len(body)
         assert size <= 255, size
         return u8(size) + u8(self.flags) + u8(self.prio) + u8(len(locb)) + body
@@ -412,6 +416,8 @@ def gen_callout(rng, u, must_fru=True):
                    res=rng.choice([0, rng.randrange(1 << 32)]), hiflags=rng.choice([0, 0xF0, 0x10]))
     c = Callout(rng.randrange(256), rng.choice(list(tables.calloutPriorityValues) + [0, 0x20, 0x4E, 0xFF]), loc,
                 fru, pce, mru)
+    if sum(x is not None for x in (fru, pce, mru)) >= 2 and rng.random() < 0.12:
+        c.order = tuple(rng.sample(["fru", "pce", "mru"], 3))
     # keep the whole callout encodable in the one-byte size field
     while len(c.encode_safe()) > 255:
         if c.pce is not None:
